@@ -684,6 +684,73 @@ fn canon_sequences(c: &mut Ctx) {
 #[cfg(not(volute_verif))]
 fn canon_sequences(_c: &mut Ctx) {}
 
+// ---------------------------------------------------------------------------------------------- hidden state across calls
+/// The same words at neighbouring arities, back to back, on the dynamic type (whose values of up to six variables all
+/// have one word): a result must depend on the arguments only, whatever was computed just before on this thread.
+/// `group`: 4 = canonization, 6 = decomposition, 7 = bdd, 9 = text, 1 = operators and transforms.
+fn cross_arity(c: &mut Ctx, group: usize) {
+    let reps = if c.thorough { 6 } else { 2 };
+    for n in 0..=6usize {
+        for n2 in [n + 1, n + 2] {
+            if n2 > 7 {
+                continue;
+            }
+            for rep in 0..reps {
+                let w = gen_table(&mut c.rng, n, if rep % 2 == 0 { Kind::Uniform } else { Kind::Symmetricish });
+                let mut w2 = vec![0u64; tsize(n2)];
+                w2[0] = w[0];
+                let a = Lut::mk(n, &w);
+                let b = Lut::mk(n2, &w2);
+                // a representative first (what a caller checking idempotence leaves behind), then the wider value
+                let seq: Vec<Lut> = match call(|| a.npn_canonization().0) {
+                    Some(ca) if group == 4 => {
+                        let mut wc = vec![0u64; tsize(n2)];
+                        wc[0] = ca.blocks()[0];
+                        vec![a.clone(), ca.clone(), ca.clone(), Lut::mk(n2, &wc), b.clone(), a.clone()]
+                    }
+                    _ => vec![a.clone(), b.clone(), a.clone(), b.clone()],
+                };
+                for x in seq.iter() {
+                    let k = x.num_vars();
+                    match group {
+                        4 => canon_all(c, x, true, true, k <= 6),
+                        6 => {
+                            for v in 0..k.min(2) {
+                                let r = call(|| x.top_decomposition(v));
+                                c.emit("top_decomposition", "D", &[fa(x), fx(v)], r.map(|d| format!("{:?}", d)));
+                                let r = call(|| x.is_pos_unate(v));
+                                c.emit("is_pos_unate", "D", &[fa(x), fx(v)], r.map(fb));
+                                let r = call(|| x.is_neg_unate(v));
+                                c.emit("is_neg_unate", "D", &[fa(x), fx(v)], r.map(fb));
+                            }
+                        }
+                        7 => {
+                            let r = call(|| Lut::bdd_complexity(&[x.clone()]));
+                            c.emit("bdd_complexity", "D", &[k.to_string(), fa(x)], r.map(|v| v.to_string()));
+                        }
+                        9 => {
+                            let r = call(|| x.to_hex_string());
+                            c.emit("to_hex", "D", &[fa(x)], r.map(|s| fbytes(s.as_bytes())));
+                            let r = call(|| x.to_bin_string());
+                            c.emit("to_bin", "D", &[fa(x)], r.map(|s| fbytes(s.as_bytes())));
+                        }
+                        _ => {
+                            let r = call(|| !x);
+                            c.emit("not.trait_ref", "D", &[fa(x)], r.map(|r| fl(&r)));
+                            if k > 0 {
+                                let r = call(|| x.flip(0));
+                                c.emit("flip", "D", &[fa(x), fx(0)], r.map(|r| fl(&r)));
+                                let r = call(|| x.cofactors(k - 1));
+                                c.emit("cofactors", "D", &[fa(x), fx(k - 1)], r.as_ref().map(|(p, q)| format!("{}|{}", fl(p), fl(q))));
+                            }
+                        }
+                    }
+                }
+            }
+        }
+    }
+}
+
 // ---------------------------------------------------------------------------------------------- C06
 fn almost_p_tables(rng: &mut Rng, n: usize, v: usize) -> Vec<Vec<u64>> {
     // functions with a decomposition property on variable v, exact and with one bit flipped
@@ -923,6 +990,27 @@ fn c08<X: L>(c: &mut Ctx, n: usize) {
         &[n.to_string(), k.to_string()],
         r.map(|(items, ex)| format!("{}|{}|{}", items.len(), fb(ex), if items.is_empty() { "".to_string() } else { items.join(";") })),
     );
+    // the iterator through `nth` (what `skip` and `step_by` call): jumps from a position that is not the start, some of
+    // them across the end of the run
+    if n <= 4 {
+        let total = 1usize << (1 << n);
+        for rep in 0..(if c.thorough { 12 } else { 4 }) {
+            let jumps: Vec<usize> = (0..(2 + c.rng.below(3))).map(|_| c.rng.below(total * 3 / 4 + 2)).collect();
+            let r = call(|| {
+                let mut it = X::all_functions_(n);
+                jumps.iter().map(|j| match it.nth(*j) { Some(l) => fl(&l), None => "none".to_string() }).collect::<Vec<_>>().join(";")
+            });
+            c.emit("all_functions_jumps", ty, &[n.to_string(), flist(&jumps.iter().map(|j| *j as u64).collect::<Vec<_>>())], r);
+            let a = c.rng.below(total + 1);
+            let st = 1 + c.rng.below(if rep % 2 == 0 { 3 } else { total / 2 + 1 });
+            let kk = 6usize;
+            let r = call(|| {
+                let items: Vec<String> = X::all_functions_(n).skip(a).step_by(st).take(kk).map(|l| fl(&l)).collect();
+                if items.is_empty() { "none".to_string() } else { items.join(";") }
+            });
+            c.emit("all_functions_strided", ty, &[n.to_string(), fx(a), fx(st), fx(kk)], r);
+        }
+    }
 }
 
 #[cfg(volute_verif)]
@@ -1723,6 +1811,31 @@ fn c19<X: L + Send>(c: &mut Ctx, n: usize) {
     }
 }
 
+/// histories on one fresh thread: a few draws of a single-word size (either type), then 256 draws of a multi-word size
+/// (either type) - the draws of one size must not depend on what was drawn before on that thread
+fn c19_mixed<X: L + Send>(c: &mut Ctx, n: usize) {
+    fn small<Y: L>(_c: &mut Ctx, n: usize) {
+        let _ = call(|| Y::random_(n));
+    }
+    for (k, small_static, n_small) in [(1usize, false, 3usize), (1, true, 5), (2, false, 6), (3, true, 0), (5, false, 4)] {
+        let h: std::thread::JoinHandle<Vec<Option<Vec<u64>>>> = std::thread::spawn(move || {
+            let mut dummy = Ctx { out: std::io::BufWriter::new(std::io::stdout()), id: 0, rng: Rng(0), thorough: false };
+            for _ in 0..k {
+                if small_static {
+                    with_static!(n_small, small(&mut dummy, n_small));
+                } else {
+                    small::<Lut>(&mut dummy, n_small);
+                }
+            }
+            (0..256).map(|_| call(|| X::random_(n)).map(|l| l.blocks_())).collect()
+        });
+        let v = h.join().unwrap();
+        for r in v {
+            c.emit(&format!("random.mix{}{}{}", k, if small_static { "s" } else { "d" }, n_small), X::TY, &[n.to_string()], r.map(|w| ftab(n, &w)));
+        }
+    }
+}
+
 // ---------------------------------------------------------------------------------------------- tables cross-check
 #[cfg(volute_verif)]
 fn const_tables(c: &mut Ctx) {
@@ -1764,6 +1877,7 @@ fn main() {
             }
             for_static!(c, c01, 0..=12usize);
             c01_mismatch(c);
+            cross_arity(c, 1);
         }
         "C02" => {
             for n in 0..=9 {
@@ -1775,6 +1889,9 @@ fn main() {
             for_static!(c, c02, 0..=9usize);
             c02::<Lut>(c, 12);
             c02::<volute::Lut12>(c, 12);
+            cross_arity(c, 1);
+            cross_arity(c, 4);
+            twolevel::to_lut_conversions(c);
             // conversions between the two types (every LutN from a Lut of every size, dense tables): whatever they
             // return is a value obtained through the public API
             c10_all_conv(c);
@@ -1784,6 +1901,7 @@ fn main() {
                 c03::<Lut>(c, n);
             }
             for_static!(c, c03, 0..=12usize);
+            cross_arity(c, 1);
         }
         "C04" | "C05" => {
             for n in 0..=8 {
@@ -1791,18 +1909,21 @@ fn main() {
             }
             for_static!(c, c04, 0..=8usize);
             canon_sequences(c);
+            cross_arity(c, 4);
         }
         "C06" => {
             for n in 0..=12 {
                 c06::<Lut>(c, n);
             }
             for_static!(c, c06, 0..=12usize);
+            cross_arity(c, 6);
         }
         "C07" => {
             for n in 0..=11 {
                 c07::<Lut>(c, n);
             }
             for_static!(c, c07, 0..=11usize);
+            cross_arity(c, 7);
         }
         "C08" => {
             for n in 0..=12 {
@@ -1823,6 +1944,7 @@ fn main() {
                 with_static!(n, c09_print(&mut *c, n));
                 with_static!(n, c09_parse(&mut *c, n));
             }
+            cross_arity(c, 9);
         }
         "C10" => {
             for_static!(c, c10_static, 0..=12usize);
@@ -1922,6 +2044,10 @@ fn main() {
                 c19::<Lut>(c, n);
             }
             for_static!(c, c19, 0..=12usize);
+            for n in 7..=9usize {
+                c19_mixed::<Lut>(c, n);
+                with_static!(n, c19_mixed(&mut *c, n));
+            }
         }
         "tables" => const_tables(c),
         _ => {
